@@ -207,9 +207,60 @@ static void closeSess()
 	sess = 0;
 }
 
+// ---------------------------------------------------------------- persistent objects (h-operations)
+//
+// Up to four File / TextFile objects live across operations.  What the library must answer is decided by
+// the model; the bookkeeping below only implements the rules of the protocol that both sides apply from the
+// operation history alone (see tools/props/c17.py, "protocol of the h-operations"):
+//   dirty    - the object is open in a writing mode and something was written since it was opened / flushed:
+//              how much of that is on disk is stdio's business, so the size of the path is printed as `?`
+//              and reads of the path are refused (`err dirty`) until flush or close;
+//   poisoned - a stat-backed query was made on the object while its path was dirty: what it cached is not
+//              determined; `close()` must discard it (that is the property), so only close clears the flag;
+//   spent    - text()/lines() ran on the object: where they leave the handle is not modelled;
+//   ver      - version of the path when the object was opened for reading (a later writer makes it stale).
+struct HObj {
+	File* f; TextFile* t; int path; int mode; bool dirty, poisoned, spent; long ver;   // mode: -1 closed, 0 r, 1 w, 2 a, 3 rw
+	HObj() : f(0), t(0), path(0), mode(-1), dirty(false), poisoned(false), spent(false), ver(0) {}
+	File* base() { return f ? f : (File*)t; }
+};
+static HObj* hs[4] = { 0, 0, 0, 0 };
+static long pver[4] = { 0, 0, 0, 0 };
+
+static void dropHandle(int i)
+{
+	if (!hs[i]) return;
+	delete hs[i]->f;
+	delete hs[i]->t;
+	delete hs[i];
+	hs[i] = 0;
+}
+
+static void hclose(HObj* o)
+{
+	o->base()->close();
+	o->mode = -1; o->dirty = false; o->poisoned = false; o->spent = false;
+}
+
+static void closeAllHandles() { for (int i = 0; i < 4; i++) if (hs[i]) hclose(hs[i]); }
+
+static bool pathDirty(int p)
+{
+	for (int i = 0; i < 4; i++) if (hs[i] && hs[i]->path == p && hs[i]->dirty) return true;
+	return false;
+}
+
+static bool otherWriter(int self, int p)
+{
+	for (int i = 0; i < 4; i++) if (i != self && hs[i] && hs[i]->path == p && hs[i]->mode >= 1) return true;
+	return false;
+}
+
 static void reset()
 {
 	closeSess();
+	for (int i = 0; i < 4; i++) dropHandle(i);
+	for (int i = 0; i < 4; i++) pver[i] = 0;
 	wipe();
 	xdev = false;
 }
@@ -225,7 +276,7 @@ static std::string linesStr(int p)
 	return showLines(TextFile(P(p)).lines());
 }
 
-static std::string step(const Toks& t)
+static std::string stepOld(const Toks& t)
 {
 	const std::string& op = t[0];
 	static const char* sessionOps[] = { "w", "sb", "ss", "sc", "si", "r", "rl", "rlc", "end", "seek", "pos", 0 };
@@ -388,6 +439,39 @@ static std::string step(const Toks& t)
 		struct stat sb;
 		return b01(ok) + " " + rawStr(2) + " src=" + b01(stat(pathOf(0).c_str(), &sb) == 0);
 	}
+	if (op == "xobj" && t.size() == 6) {
+		// ONE object: open(mode), write, a stat-backed query while open, write, close(), then size(), text(), content()
+		std::string b1, b2;
+		if (!parseBytes(t[4], b1) || !parseBytes(t[5], b2)) return "bad-op";
+		bool isT = t[1] == "t";
+		if (!isT && t[1] != "f") return "bad-op";
+		File::OpenMode om = t[2] == "w" ? File::WRITE : File::APPEND;
+		if (t[2] != "w" && t[2] != "a") return "bad-op";
+		unlink(pathOf(0).c_str());
+		File* f = isT ? 0 : new File(P(0));
+		TextFile* tf = isT ? new TextFile(P(0)) : 0;
+		File* o = isT ? (File*)tf : f;
+		std::string r;
+		if (!(isT ? tf->open(om) : f->open(om))) r = "err open";
+		else {
+			Exact e1(b1), e2(b2);
+			if (isT) tf->write(S(e1)); else f->write(e1.p, (int)e1.n);
+			const std::string& q = t[3];
+			if (q == "size") o->size();
+			else if (q == "exists") o->exists();
+			else if (q == "isfile") o->isFile();
+			else if (q == "isdir") o->isDirectory();
+			else if (q == "mtime") o->lastModified();
+			if (isT) *tf << S(e2); else *f << ByteArray((const byte*)e2.p, (int)e2.n);
+			o->close();
+			r = str(o->size());
+			if (isT) { r += " " + showBytes(tf->text()); o->close(); }
+			r += " " + showBytes(o->content());
+		}
+		delete f;
+		delete tf;
+		return r;
+	}
 	if ((op == "xput" && t.size() == 3) || (op == "xseq" && t.size() == 5)) {
 		// one writer (xput) or two writers in a row (xseq) on a fresh path, then the three views of the file
 		unlink(pathOf(0).c_str());
@@ -414,6 +498,121 @@ static std::string step(const Toks& t)
 		return str(sz) + " " + showBytes(c) + " raw=" + b01(same);
 	}
 	return "bad-op";
+}
+
+static std::string hstep(const Toks& t)
+{
+	const std::string& op = t[0];
+	if (t.size() < 2 || t[1].size() != 1 || t[1][0] < '0' || t[1][0] > '3') return "bad-op";
+	int hi = t[1][0] - '0';
+	if (op == "hnew" && t.size() == 4) {
+		int p = parsePath(t[2]);
+		if (p < 0 || (t[3] != "f" && t[3] != "t")) return "bad-op";
+		dropHandle(hi);
+		HObj* o = new HObj;
+		o->path = p;
+		if (t[3] == "f") o->f = new File(P(p)); else o->t = new TextFile(P(p));
+		hs[hi] = o;
+		return "ok";
+	}
+	HObj* o = hs[hi];
+	if (!o) return "err nohandle";
+	int p = o->path;
+	if (op == "hopen" && t.size() == 3) {
+		int m = t[2] == "r" ? 0 : t[2] == "w" ? 1 : t[2] == "a" ? 2 : t[2] == "rw" ? 3 : -1;
+		if (m < 0) return "bad-op";
+		if (o->mode >= 0) hclose(o);                   // reopen = close() + open()
+		if (m >= 1 && otherWriter(hi, p)) return "err busy";
+		File::OpenMode om = m == 0 ? File::READ : m == 1 ? File::WRITE : m == 2 ? File::APPEND : File::RW;
+		bool ok = o->f ? o->f->open(om) : o->t->open(om);
+		if (!ok) return "err open";
+		o->mode = m;
+		if (m == 1 || m == 2) pver[p]++;
+		o->ver = pver[p];
+		return "ok";
+	}
+	if (op == "hclose" && t.size() == 2) { hclose(o); return "ok"; }
+	if (op == "hflush" && t.size() == 2) {
+		if (o->mode < 0) return "err closed";
+		o->base()->flush();
+		o->dirty = false;
+		return "ok";
+	}
+	std::string bs;
+	if ((op == "hw" || op == "happ" || op == "hput" || op == "hsh") && t.size() == 3) {
+		if (!parseBytes(t[2], bs)) return "bad-op";
+		if (op == "happ" && o->f) return "err kind";
+		bool needsOpen = o->f && (op == "hw" || op == "hsh");       // File::write / File::operator<< use _file as it is
+		if (o->mode < 0 && needsOpen) return "err closed";
+		if (o->mode == 0) return "err mode";
+		int lazy = op == "happ" ? 2 : 1;                            // append() opens APPEND, the others WRITE
+		if (o->mode < 0 && otherWriter(hi, p)) return "err busy";
+		Exact e(bs);
+		std::string r;
+		if (op == "hw") r = o->f ? str(o->f->write(e.p, (int)e.n)) : b01(o->t->write(S(e)));
+		else if (op == "happ") r = b01(o->t->append(S(e)));
+		else if (op == "hput") r = o->f ? b01(o->f->put(ByteArray((const byte*)e.p, (int)e.n))) : b01(o->t->put(S(e)));
+		else { if (o->f) *o->f << ByteArray((const byte*)e.p, (int)e.n); else *o->t << S(e); r = "ok"; }
+		if (o->mode < 0 && !!*o->base()) o->mode = lazy;
+		if (o->mode >= 1) { o->dirty = true; pver[p]++; o->ver = pver[p]; }
+		return r;
+	}
+	if ((op == "hsize" || op == "hexists" || op == "hisfile" || op == "hisdir" || op == "hmtime") && t.size() == 2) {
+		bool dirty = pathDirty(p);
+		if (dirty) o->poisoned = true;
+		if (op == "hsize") { Long s = o->base()->size(); return (dirty || o->poisoned) ? "?" : str(s); }
+		if (op == "hexists") return b01(o->base()->exists());
+		if (op == "hisfile") return b01(o->base()->isFile());
+		if (op == "hisdir") return b01(o->base()->isDirectory());
+		o->base()->lastModified();
+		return "ok";
+	}
+	if (op == "hcontent" || op == "hfirst" || op == "hr" || op == "htext" || op == "hlines") {
+		if ((op == "htext" || op == "hlines") && !o->t) return "err kind";
+		if (o->mode >= 1) return "err mode";
+		if (op == "hr" && o->mode < 0) return "err closed";
+		if (pathDirty(p)) return "err dirty";
+		if (o->poisoned) return "err poisoned";
+		if (o->spent) return "err spent";
+		if (o->mode == 0 && o->ver != pver[p]) return "err stale";
+		if ((op == "htext" || op == "hlines") && o->mode == 0 && o->base()->position() != 0) return "err pos";
+		std::string r;
+		if (op == "hcontent" && t.size() == 2) r = showBytes(o->base()->content());
+		else if ((op == "hfirst" || op == "hr") && t.size() == 3) {
+			long long k = num(t[2]);
+			if (k < 0 || k > (1 << 26)) return "bad-op";
+			if (op == "hfirst") r = showBytes(o->base()->firstBytes((int)k));
+			else {
+				char* buf = (char*)malloc(k ? (size_t)k : 1);
+				int n = o->base()->read(buf, (int)k);
+				r = showBytes(buf, n);
+				free(buf);
+			}
+		}
+		else if (op == "htext" && t.size() == 2) r = showBytes(o->t->text());
+		else if (op == "hlines" && t.size() == 2) r = showLines(o->t->lines());
+		else return "bad-op";
+		if (o->mode < 0 && !!*o->base()) { o->mode = 0; o->ver = pver[p]; }
+		if ((op == "htext" || op == "hlines") && o->mode == 0) o->spent = true;
+		return r;
+	}
+	return "bad-op";
+}
+
+static std::string step(const Toks& t)
+{
+	const std::string& op = t[0];
+	static const char* hops[] = { "hnew", "hopen", "hclose", "hflush", "hw", "happ", "hput", "hsh", "hsize", "hexists", "hisfile",
+		"hisdir", "hmtime", "hcontent", "hfirst", "hr", "htext", "hlines", 0 };
+	for (int i = 0; hops[i]; i++) if (op == hops[i]) { closeSess(); return hstep(t); }
+	// observations through temporaries leave the persistent objects alone; everything else closes them first
+	bool obs = op == "raw" || op == "size" || op == "content" || op == "text" || op == "lines" || op == "exists" || op == "first";
+	if (!obs) closeAllHandles();
+	else if (t.size() >= 2) {
+		int p = parsePath(t[1]);
+		if (p >= 0 && pathDirty(p) && op != "exists") { closeSess(); return op == "size" ? "?" : "err dirty"; }
+	}
+	return stepOld(t);
 }
 
 int main()
